@@ -1,0 +1,20 @@
+//go:build verif
+
+package acracensor
+
+// Add-only accessors for the verification harness (built only with -tags verif).
+
+// VerifHandlers returns the ordered handler chain.
+func (acraCensor *AcraCensor) VerifHandlers() []QueryHandlerInterface {
+	return acraCensor.handlers
+}
+
+// VerifIgnoreParseError returns the parse-error tolerance flag.
+func (acraCensor *AcraCensor) VerifIgnoreParseError() bool {
+	return acraCensor.ignoreParseError
+}
+
+// VerifHasUnparsedWriter tells whether a parse_errors_log writer is configured.
+func (acraCensor *AcraCensor) VerifHasUnparsedWriter() bool {
+	return acraCensor.unparsedQueriesWriter != nil
+}
